@@ -225,6 +225,28 @@ def run(R):
                     R.counters['oracle_evaluations'] += 512
                 R.case(mon.fp('sig', seed, msg))
 
+        # ---- the peer given as an instance of a Server subclass (applications derive their node classes from Server) and the local side as a Client subclass
+        class _Node(Server):
+            pass
+
+        class _MyClient(Client):
+            pass
+        for i in range(6):
+            sa, sb = rng.randbytes(32), rng.randbytes(32)
+            ca, cb = _MyClient(sa) if i % 2 else Client(sa), Client(sb)
+            lid, pid = ca.get_key_id(), cb.get_key_id()
+            st, res = mon.call(lambda: (AdnlChannel(ca, _Node('h', 1, cb.ed25519_public.encode()), lid, pid), AdnlChannel(cb, Server('h', 1, ca.ed25519_public.encode()), pid, lid)))
+            W = {'seed_a': sa, 'seed_b': sb, 'peer_class': 'Server subclass', 'local_class': type(ca).__name__}
+            if st == 'exc':
+                R.violation(f'channel-construct-subclass-{type(res).__name__}', f'AdnlChannel with a Server-subclass peer raised {res!r}', W)
+                continue
+            A_, B_ = res
+            data = rng.randbytes(40)
+            pkt = A_.encrypt(data)
+            st2, back = mon.call(B_.decrypt, pkt[64:], pkt[32:64])
+            R.check(pkt[:32] == B_.server_aes_key_id and st2 == 'ok' and back == data and pkt[32:64] == hashlib.sha256(data).digest(), 'subclass-peer-channel',
+                    'a channel opened towards a Server-subclass peer is not what the peer decrypts / expects', W)
+            R.count('subclass_peer_channels')
         # ---- key ids
         for i in range(20):
             seed = rng.randbytes(32)
